@@ -124,3 +124,18 @@ package driver
 //@   ensures [C12] err != nil ==> r == nil
 //@   ensures [C12] err == nil ==> r != nil
 //@   ensures [C11,C12] statement_is_reusable: stmt.q == old(stmt.q) && ptOK(stmt.q.Expr) && IdxInv(stmt.c.idx) && stmt.c.idx.mtx.held == 0
+
+// the direct Query path of database/sql: arguments arrive with 1-based ordinals (database/sql numbers them), the
+// argument list is rebuilt by ordinal, then the statement path above is used
+//@ func [C11,C12] (*fileConn).QueryContext(c, ctx, query, args) (r, err)
+//@   requires c != nil && IdxInv(c.idx) && c.idx.mtx.held == 0
+//@   requires ordinals_start_at_one: forall j idx(args) :: args[j].Ordinal >= 1
+//@   modifies heap list.List.stamp; heap list.List.clock; heap list.List.members; heap updog.CounterMetric.count; heap updog.LRUCache.curSize
+//@   modifies heap map[uint64]*list.Element; heap dom[uint64]*list.Element; heap updog.lruCacheItem.bm; heap updog.lruCacheItem.size; heap updog.HistogramMetric.obs
+//@   modifies heap sync.Mutex.held
+//@   ensures [C12] err != nil ==> r == nil
+//@   ensures [C11,C12] connection_stays_usable: IdxInv(c.idx) && c.idx.mtx.held == 0
+//@   loop 1
+//@     invariant 0 <= $i && 0 <= size && (forall j idx(args) :: j < $i ==> args[j].Ordinal <= size)
+//@   loop 2
+//@     invariant 0 <= $i && len(values) == size && arr(values) != nil && !(arr(values) in old($alloc)) && (forall j idx(args) :: args[j].Ordinal <= size)
